@@ -654,6 +654,25 @@ def sender_rule_case():
     return None
 
 
+def spaced_rule_text_case():
+    """blanks between the items of a rule text (as dbus-daemon accepts them) do not loosen the rule"""
+    from txdbus import message
+    for text in ("type='signal', interface='org.e.I', member='S'", "type='signal' ,interface='org.e.I' , member='S'", " type='signal',  interface = 'org.e.I',member= 'S'"):
+        net = Net()
+        a, b = net.connect(), net.connect()
+        b.call_bus('AddMatch', 's', [text])
+        b.drain()
+        a.send(message.SignalMessage('/o', 'S', 'org.e.I', signature='s', body=['hit']))
+        a.send(message.SignalMessage('/o', 'S', 'org.e.Other', signature='s', body=['other interface']))
+        a.send(message.SignalMessage('/o', 'T', 'org.e.I', signature='s', body=['other member']))
+        got = [x.body for x in b.drain() if getattr(x, 'member', None) in ('S', 'T')]
+        if got not in ([['hit']], []):
+            return 'a subscriber whose rule text is %r received %r (the rule selects interface org.e.I member S only)' % (text, got)
+        if got == [] and text.count(' ') == 2:
+            return 'a subscriber whose rule text is %r received nothing of the signal it selects' % (text,)
+    return None
+
+
 def big_endian_client_case():
     """a message encoded big-endian by its sender arrives decodable with the same header fields and body"""
     from . import message_harness as MH
@@ -761,7 +780,7 @@ def takeover_by_waiter_case():
 
 def bounded(tier, seed):
     n = 0
-    for case in (late_loss_of_refused_connection_case, order_case, prehello_case, dead_subscriber_case, takeover_case, namespace_subscription_case, forged_wellknown_sender_case, sender_rule_case, big_endian_client_case, withdrawn_claim_case, takeover_by_waiter_case):
+    for case in (late_loss_of_refused_connection_case, order_case, prehello_case, dead_subscriber_case, takeover_case, namespace_subscription_case, forged_wellknown_sender_case, sender_rule_case, spaced_rule_text_case, big_endian_client_case, withdrawn_claim_case, takeover_by_waiter_case):
         n += 1
         try:
             f = case()
